@@ -11,6 +11,7 @@ import (
 
 var (
 	wfIDs      = []string{"a", "ab", "abc", "b", "a.b", "a-b", "é", "A", "a b", "ba", "a*"}
+	multiIDs   = []string{"t/a", "t/ab", "t/0", "t", "u/v/w", "t.x/a", "tasks/cpu"} // clean multi-segment ids (load service style)
 	badIDs     = []string{".", "..", "a/b", "a/../b", "", "x/.", "../../data/a", "a//b", "a/", "../id/a", "b/.."}
 	safeGrps   = []string{"g", "g1", "g2", "h", "zz"}
 	lowSepGrps = []string{"g", "g.1", "g-x", "g1", "g h"}
@@ -151,8 +152,11 @@ func genCase(r *kit.Rand, i int) []string {
 		// make sure ids that are prefixes of each other are present
 		g.ids = append([]string{"a", "ab"}, pickN(r, wfIDs[2:], r.Range(1, 3))...)
 	}
+	if r.Chance(1, 3) {
+		g.ids = append(pickN(r, multiIDs, r.Range(2, 4)), "a")
+	}
 	g.grps = pickN(r, safeGrps, r.Range(2, 3))
-	g.tagOf = func(id string) string { return "T" + id }
+	g.tagOf = func(id string) string { return "T" + strings.ReplaceAll(id, "/", "_") }
 	g.idx = []idxSpec{{"id", true, "id"}, {"grp", false, "grp"}}
 	switch r.Intn(4) {
 	case 0:
